@@ -1494,7 +1494,10 @@ class Request:
 
         # PERF: Use if..in since it is a good all-around performer; we don't
         #       know how likely params are to be specified by clients.
-        if name in params:
+        # NOTE: With auto_parse_qs_csv and without keep_blank_qs_values a
+        #   field such as 'name=,' is stored as an empty list: there is no
+        #   value to return, as for a missing parameter.
+        if name in params and params[name] != []:
             # NOTE(warsaw): If the key appeared multiple times, it will be
             # stored internally as a list.  We do not define which one
             # actually gets returned, but let's pick the last one for grins.
@@ -1596,7 +1599,7 @@ class Request:
 
         # PERF: Use if..in since it is a good all-around performer; we don't
         #       know how likely params are to be specified by clients.
-        if name in params:
+        if name in params and params[name] != []:
             val_str = params[name]
             if isinstance(val_str, list):
                 val_str = val_str[-1]
@@ -1709,7 +1712,7 @@ class Request:
 
         # PERF: Use if..in since it is a good all-around performer; we don't
         #       know how likely params are to be specified by clients.
-        if name in params:
+        if name in params and params[name] != []:
             val_str = params[name]
             if isinstance(val_str, list):
                 val_str = val_str[-1]
@@ -1817,7 +1820,7 @@ class Request:
 
         # PERF: Use if..in since it is a good all-around performer; we don't
         #       know how likely params are to be specified by clients.
-        if name in params:
+        if name in params and params[name] != []:
             val_str = params[name]
             if isinstance(val_str, list):
                 val_str = val_str[-1]
@@ -1925,7 +1928,7 @@ class Request:
 
         # PERF: Use if..in since it is a good all-around performer; we don't
         #       know how likely params are to be specified by clients.
-        if name in params:
+        if name in params and params[name] != []:
             val_str = params[name]
             if isinstance(val_str, list):
                 val_str = val_str[-1]
